@@ -92,3 +92,37 @@ def composition_family(word, copies=0, extra=()):
     import itertools
     perms = sorted({"".join(t) for t in itertools.permutations(word)})
     return perms + [word] * copies + list(extra)
+
+
+RADIUS_SEEDS = ("FAGHSLGQGNTEAF", "CASSLGQGNTEAFF", "AAAAAAAAAAAAAA", "CASSLGQGNTEAFFGQGTRLTV", "ACACACACACACAC")
+
+
+def radius_family(seed, k):
+    """Strings exactly / at most k edits from a long seed, built so that each can only be reached by particular deletions (the first
+    residues, the last residues, the first residue plus a block elsewhere, a block in the middle), by k spread substitutions, or by
+    indel mixtures; plus strings shorter than k (incl. duplicates) and one far string.  Order: seed first."""
+    L = len(seed)
+    out = [seed]
+    for off in sorted({0, 1, 2, L // 2, L - k - 1, L - k}):
+        if 0 <= off <= L - k:
+            out.append(seed[:off] + seed[off + k:])                    # block of k deleted
+    if k >= 2:
+        for off in sorted({2, L // 2, L - k + 1}):
+            if 1 <= off <= L - (k - 1):
+                out.append(seed[1:off] + seed[off + k - 1:])           # first residue and a block of k-1
+        out.append(seed[:-1][:L // 2] + seed[:-1][L // 2 + k - 1:])      # last residue and a block of k-1
+    other = "W" if "W" not in seed else "Y"
+    pos = [(i * (L - 1)) // max(1, k - 1) for i in range(k)] if k > 1 else [L // 2]
+    sub = list(seed)
+    for p_ in pos:
+        sub[p_] = other
+    out.append("".join(sub))                                             # k substitutions spread over the string
+    out.append(other * k + seed)                                         # k insertions in front
+    out.append(seed + other * (k + 1))                                   # k+1 insertions (too far)
+    if k >= 2:
+        out.append(other + seed[:L // 2] + seed[L // 2 + k - 1:])       # one insertion, k-1 deletions
+    short = ["", seed[:1], seed[:2], seed[:1] + other, seed[:2], seed[:k - 1], seed[:k]]
+    out += short
+    out.append(other * L)
+    out.append(seed)                                                     # a second copy of the seed
+    return out
